@@ -6,6 +6,7 @@ import (
 	"fmt"
 	"os"
 	"path/filepath"
+	"regexp"
 	"sort"
 	"strings"
 	"sync"
@@ -271,15 +272,21 @@ func CliCheck(prop, tier string) error {
 	cov := ev.Coverage
 	libEvals, libDistinct := 0, 0
 	if prop == "C15" {
-		n := 40
+		n := 150
 		if tier == "thorough" {
-			n = 600
+			n = 1500
 		}
-		sl, sruns, ssamples, err := fixedPointSweep(s, runner, seed, n)
+		sl, sruns, ssamples, err := fixedPointSweep(s, runner, seed, n, known)
 		if err != nil {
 			return Fatal2("fixed-point sweep: %v", err)
 		}
-		lines = append(lines, sl...)
+		for _, l := range sl {
+			if strings.HasPrefix(l, "KNOWN-FINDING") {
+				knownLines = append(knownLines, l)
+			} else {
+				lines = append(lines, l)
+			}
+		}
 		libEvals = sruns
 		cov["fixed_point_sweep"] = map[string]any{"what": "the CLI run in place three times (absent, own output left in place, own output with -rm) on conflict-heavy packages of the engine B corpus; the three files must be byte-identical",
 			"moq_processes": sruns, "packages": n, "samples": ssamples}
@@ -401,7 +408,10 @@ func CliReplayFile(path string) error {
 // run the CLI in place twice with the first output left where it is, then once
 // more with -rm: all three files must be byte-identical (moq's own output,
 // import aliases included, is a fixed point of moq).
-func fixedPointSweep(s *Scratch, runner *clisim.Runner, seed uint64, npkgs int) (lines []string, runs int, samples []string, err error) {
+var notATypeRe = regexp.MustCompile(`(\w+)\.\w+ is not a type`)
+
+func fixedPointSweep(s *Scratch, runner *clisim.Runner, seed uint64, npkgs int, known []KnownFinding) (lines []string, runs int, samples []string, err error) {
+	seenSig := map[string]bool{}
 	spec := corpus.Spec{Seed: seed, NPkgs: npkgs, ConfigsPer: 2}
 	cb := corpus.GenerateB(spec)
 	root := filepath.Join(s.Dir, "fpsweep")
@@ -447,18 +457,39 @@ func fixedPointSweep(s *Scratch, runner *clisim.Runner, seed uint64, npkgs int) 
 			if len(samples) < 2 {
 				samples = append(samples, fmt.Sprintf("%s in package %s: exits %v, %d bytes three times", cmd, c.Pkg, exits, len(files[0])))
 			}
-			if exits[0] == 0 && (exits[1] != 0 || exits[2] != 0 || !bytes.Equal(files[0], files[1]) || !bytes.Equal(files[0], files[2])) && len(lines) == 0 {
+			if exits[0] == 0 && (exits[1] != 0 || exits[2] != 0 || !bytes.Equal(files[0], files[1]) || !bytes.Equal(files[0], files[2])) {
 				what := "the second run over its own output"
 				if exits[1] == 0 && bytes.Equal(files[0], files[1]) {
 					what = "the run with -rm"
 				}
-				rp := map[string]any{"property": "C15", "class": "not-a-fixed-point", "engine": "clisim-sweep", "verif_seed": seed, "corpus": spec, "cell": c,
-					"sources": packageFiles(cb, c.Pkg), "trace": []string{cmd + " (three times: absent, own output in place, own output with -rm)", fmt.Sprintf("exit statuses %v, sizes %d %d %d", exits, len(files[0]), len(files[1]), len(files[2]))}}
-				dst := filepath.Join(ReplayDir, fmt.Sprintf("C15-%d-s0.json", seed))
-				data, _ := json.MarshalIndent(rp, "", " ")
-				os.WriteFile(dst, data, 0o644)
-				lines = append(lines, fmt.Sprintf("VIOLATION property=C15 replay=%s class=not-a-fixed-point :: %s in conflict-heavy package %s: %s differs from the first output (exits %v, %d / %d / %d bytes)",
-					dst, cmd, c.Pkg, what, exits, len(files[0]), len(files[1]), len(files[2])))
+				// why: does moq's first output compile at all?
+				sig, why := "not-a-fixed-point", ""
+				if exits[1] != 0 {
+					os.WriteFile(out, files[0], 0o600)
+					msg, berr := Run(dir, MoqEnv(), "go", "build", ".")
+					os.Remove(out)
+					if berr != nil {
+						sig = "not-a-fixed-point@own-output-does-not-compile(other)"
+						why = firstLines(string(msg), 3)
+						if m := notATypeRe.FindStringSubmatch(string(msg)); m != nil && bytes.Contains(files[0], []byte("\t"+m[1]+" \"")) {
+							sig = "not-a-fixed-point@own-output-does-not-compile(parameter-shadows-generated-import-alias)"
+						}
+					}
+				}
+				if !seenSig[sig] {
+					seenSig[sig] = true
+					rp := map[string]any{"property": "C15", "class": "not-a-fixed-point", "signature": sig, "engine": "clisim-sweep", "verif_seed": seed, "corpus": spec, "cell": c,
+						"sources": packageFiles(cb, c.Pkg), "trace": []string{cmd + " (three times: absent, own output in place, own output with -rm)", fmt.Sprintf("exit statuses %v, sizes %d %d %d", exits, len(files[0]), len(files[1]), len(files[2])), why}}
+					dst := filepath.Join(ReplayDir, fmt.Sprintf("C15-%d-s%d.json", seed, len(seenSig)-1))
+					data, _ := json.MarshalIndent(rp, "", " ")
+					os.WriteFile(dst, data, 0o644)
+					detail := fmt.Sprintf("%s in conflict-heavy package %s: %s differs from the first output (exits %v, %d / %d / %d bytes) %s", cmd, c.Pkg, what, exits, len(files[0]), len(files[1]), len(files[2]), why)
+					if k := IsKnown(known, "C15", sig); k != nil {
+						lines = append(lines, fmt.Sprintf("KNOWN-FINDING: property=C15 %s (%s; e.g. %s; replay %s)", k.Text, sig, cmd+" in "+c.Pkg, dst))
+					} else {
+						lines = append(lines, fmt.Sprintf("VIOLATION property=C15 replay=%s class=%s :: %s", dst, sig, detail))
+					}
+				}
 			}
 			mu.Unlock()
 		}
@@ -498,7 +529,7 @@ func SweepReplay(path string) error {
 		return err
 	}
 	runner := &clisim.Runner{MoqBin: bin, Env: MoqEnv(), Base: filepath.Join(s.Dir, "scn")}
-	lines, _, _, err := fixedPointSweep(s, runner, rp.Seed, rp.Corpus.NPkgs)
+	lines, _, _, err := fixedPointSweep(s, runner, rp.Seed, rp.Corpus.NPkgs, nil)
 	if err != nil {
 		return Fatal2("%v", err)
 	}
